@@ -89,8 +89,10 @@ public:
             return;
 
         // Qt delivers posted events in the logger thread only while a QCoreApplication exists;
-        // without one the backlog cannot drain there and is processed below instead
-        while (m_pendingCount.loadAcquire() > 0 && QCoreApplication::instance()) {
+        // without one the backlog cannot drain there and is processed below instead - but a
+        // message the thread is working on right now is still waited for
+        while (m_pendingCount.loadAcquire() > 0
+               && (QCoreApplication::instance() || m_processing.loadAcquire() != 0)) {
             locker.unlock();
             QTLOGGER_VERIF_POINT("oth.reset.drain");
             QThread::msleep(10);
@@ -174,10 +176,12 @@ private:
             if (m_queue.isEmpty())
                 return false;
             lmsg = m_queue.dequeue();
+            m_processing.storeRelease(1);
         }
         QTLOGGER_VERIF_POINT("oth.worker.entry");
         BaseHandler::process(*lmsg);
         QTLOGGER_VERIF_POINT("oth.worker.processed");
+        m_processing.storeRelease(0);
         m_pendingCount.fetchAndSubOrdered(1);
         QTLOGGER_VERIF_POINT("oth.worker.decremented");
         return true;
@@ -205,6 +209,7 @@ private:
     QMutex m_mutex;
     bool m_stopping = false; // resetOwnThread() is waiting for the thread to finish
     QAtomicInt m_pendingCount;
+    QAtomicInt m_processing; // a dequeued message is inside the wrapped handler
     QQueue<QSharedPointer<LogMessage>> m_queue;
     QMutex m_queueMutex;
 };
